@@ -11,6 +11,7 @@ using namespace vf;
 
 static const char* KEY_D15 = "C11-nelder-mead-collapse-small-simplex";
 static const char* KEY_D15B = "C11-nelder-mead-initial-spread-below-ftol";
+static const char* KEY_D37 = "C11-brent-iteration-cap-far-cosh-start";
 
 // ------------------------------------------------------------------------------------------ 1D
 struct Obj1
@@ -116,8 +117,12 @@ static void case_1d(Rng& rng, uint64_t)
 			step = rng.sign() * s * rng.loguni(20.0, 1e3);
 	}
 	// "from any starting point": a cosh bowl started hundreds of widths from its minimum, where its values are close to the overflow threshold
+	bool far_cosh = false;
 	if(family == 2 && rng.coin(0.3))
-		off = rng.sign() * s * rng.uni(100.0, 709.0);
+	{
+		off		 = rng.sign() * s * rng.uni(100.0, 709.0);
+		far_cosh = true;
+	}
 	double xl = c + off, xr = xl + step;
 	if(family == 7)
 	{
@@ -161,7 +166,19 @@ static void case_1d(Rng& rng, uint64_t)
 		// decided by rounding noise once x delta < eps |f*| s^2 / kappa, and one wrong decision excludes the minimiser from the bracket for good
 		// (thorough tier, case 7484496 of 2.1e7: Morse well of depth 0.0136 on an offset of 50.4 returned 21 flat widths away).
 		double tolx = 10 * tol * std::fabs(o.xstar) + 100 * std::sqrt(EPS) * std::max(std::fabs(o.xstar), s) + 64 * s * std::sqrt(EPS * std::fabs(o.fstar) / o.kappa) + (o.quartic ? 0.02 * s : 0.0);
-		judge("1d-convergence-unimodal", std::fabs(xmin - o.xstar), tolx, [&] { return J().d("returned", xmin).d("minimiser", o.xstar).i("brent_iterations", (long long) iters); });
+		auto det1 = [&] { return J().d("returned", xmin).d("minimiser", o.xstar).i("brent_iterations", (long long) iters); };
+		if(far_cosh)
+			clause("1d-far-cosh-start-iteration-cap(rate-limited)").n++;
+		if(far_cosh && iters >= 100 && !(std::fabs(xmin - o.xstar) <= tolx))
+		{
+			// Finding D37 (soak VERIF_SEED=13, one_dimensional#271202): on a cosh bowl started hundreds of widths from its minimum (values ~1e199) Brent's
+			// parabolic steps advance so slowly that the cap of 100 iterations is reached; the library warns and returns its best point, 14.6 widths from the
+			// minimiser.  Matched on the full signature (cosh family, far start, cap reached, descent intact - required above) and rate-limited by bin/check.
+			clause("1d-far-cosh-start-iteration-cap(rate-limited)").nontrivial++;
+			known_hit(KEY_D37, "Find_Minimum reached Brent's cap of 100 iterations on a cosh bowl started >= 100 widths from its minimum and returned far from the minimiser (rate-limited)", det1());
+		}
+		else
+			judge("1d-convergence-unimodal", std::fabs(xmin - o.xstar), tolx, det1);
 	}
 	// Find_Maximum of f is Find_Minimum of -f (same bits)
 	if(rng.coin(0.25))
